@@ -8,8 +8,8 @@ use vcore::Ctx;
 const A: Aspects = Aspects { value: true, reports: true, handovers: false, examined: false, calls: false };
 
 pub fn run(ctx: &Ctx, reg: &Registry) -> i32 {
-    let n_cases: u64 = ctx.tier.pick(150, 6000);
-    let n_base: u64 = ctx.tier.pick(4, 60);
+    let n_cases: u64 = ctx.tier.pick(800, 12000);
+    let n_base: u64 = ctx.tier.pick(8, 60);
     let acc = ctx.par(|shard, n| {
         let mut acc = Acc::new();
         let mut unit = 0u64;
